@@ -39,7 +39,7 @@ class Ctx:
         if len(self.samples) < 6 and self.families[family] <= 1:
             self.samples.append(dict(family=family, script=[l if len(l) < 200 else l[:200] + "…" for l in case[:12]]))
 
-    def absolute(self, family, cases, mask=None, nontrivial=None, stop_at_blocked=False):
+    def absolute(self, family, cases, mask=None, nontrivial=None, stop_at_blocked=False, equal=None):
         """run the same cases through the real crates and the Lean model and compare.
         mask(cmd) -> True for lines that are executed but not compared."""
         if not cases:
@@ -54,10 +54,59 @@ class Ctx:
                     continue
                 if stop_at_blocked and x == "blocked" and y == "blocked":
                     break
-                if x != y:
+                if not (equal(x, y) if equal else x == y):
                     self.disagreements.append(dict(family=family, case=c, line=i, cmd=cmd, impl=x, model=y))
                     break
         return h, m
+
+    def absolute_from_state(self, family, cases, mask=None, stop_at_blocked=False, equal=None):
+        """Like `absolute`, but the model starts from the state the REAL constructor produced (read back through the
+        serde image) instead of from the model's own `from_seed`: the tie of a property that is not about seeding is
+        then insensitive to seeding changes.  A `new <d> <G> seed|u64 …` line is followed by `ser <d>` on the real
+        side; on the model side it becomes `de <d> <G> <that image>`.  Falls back to the plain line when the type has
+        no serde image (Hc128Rng) or construction failed."""
+        if not cases:
+            return [], []
+        aug, marks = [], []
+        for c in cases:
+            a, m = [], []
+            for l in c:
+                a.append(l)
+                t = l.split()
+                if t[0] == "new" and t[3] in ("seed", "u64") and GENS.get(t[2], {}).get("ser"):
+                    a.append(f"ser {t[1]}")
+                    m.append(len(a) - 2)
+            aug.append(a); marks.append(set(m))
+        h = run_chunks(self.hexe, aug)
+        mcases = []
+        for a, m, ho in zip(aug, marks, h):
+            mc = list(a)
+            for i in m:
+                img = ho[i + 1]
+                if ho[i] == "ok" and img not in ("unsupported", "panic", "-"):
+                    t = a[i].split()
+                    mc[i] = f"de {t[1]} {t[2]} {img}"
+            mcases.append(mc)
+        mo_all = run_chunks(DRIVER, mcases)
+        hs, ms = [], []
+        for c, a, m, ho, mo in zip(cases, aug, marks, h, mo_all):
+            self.count_case(family, c)
+            self.traces_validated += 1
+            keep = [i for i in range(len(a)) if (i - 1) not in m]      # drop the inserted ser lines
+            ho2, mo2 = [ho[i] for i in keep], [mo[i] for i in keep]
+            hs.append(ho2); ms.append(mo2)
+            for i, (cmd, x, y) in enumerate(zip(c, ho2, mo2)):
+                if cmd.startswith("new ") and cmd.split()[3] in ("seed", "u64"):
+                    continue
+                if mask and mask(cmd):
+                    continue
+                if stop_at_blocked and x == "blocked" and y == "blocked":
+                    break
+                if (equal(x, y) if equal else x == y):
+                    continue
+                self.disagreements.append(dict(family=family, case=c, line=i, cmd=cmd, impl=x, model=y))
+                break
+        return hs, ms
 
     def real(self, family, cases, nontrivial=None):
         """run cases on the real crates only"""
